@@ -67,15 +67,22 @@ impl Loader {
     }
 
     /// Convert a path string to a FileId.
-    fn path(&mut self, mut path: String) -> FileId {
+    fn path(&mut self, mut path: String) -> anyhow::Result<FileId> {
         // Perf: this is called while parsing build.ninja files.  We go to
         // some effort to avoid allocating in the common case of a path that
         // refers to a file that is already known.
+        if path.is_empty() {
+            bail!("empty path (a variable in it may be undefined)");
+        }
         canonicalize_path(&mut path);
-        self.graph.files.id_from_canonical(path)
+        Ok(self.graph.files.id_from_canonical(path))
     }
 
-    fn evaluate_path(&mut self, path: EvalString<&str>, envs: &[&dyn eval::Env]) -> FileId {
+    fn evaluate_path(
+        &mut self,
+        path: EvalString<&str>,
+        envs: &[&dyn eval::Env],
+    ) -> anyhow::Result<FileId> {
         self.path(path.evaluate(envs))
     }
 
@@ -83,7 +90,7 @@ impl Loader {
         &mut self,
         paths: Vec<EvalString<&str>>,
         envs: &[&dyn eval::Env],
-    ) -> Vec<FileId> {
+    ) -> anyhow::Result<Vec<FileId>> {
         paths
             .into_iter()
             .map(|path| self.evaluate_path(path, envs))
@@ -97,14 +104,14 @@ impl Loader {
         b: parse::Build,
     ) -> anyhow::Result<()> {
         let ins = graph::BuildIns {
-            ids: self.evaluate_paths(b.ins, &[&b.vars, env]),
+            ids: self.evaluate_paths(b.ins, &[&b.vars, env])?,
             explicit: b.explicit_ins,
             implicit: b.implicit_ins,
             order_only: b.order_only_ins,
             // validation is implied by the other counts
         };
         let outs = graph::BuildOuts {
-            ids: self.evaluate_paths(b.outs, &[&b.vars, env]),
+            ids: self.evaluate_paths(b.outs, &[&b.vars, env])?,
             explicit: b.explicit_outs,
         };
         let mut build = graph::Build::new(
@@ -201,7 +208,7 @@ impl Loader {
 
             match stmt {
                 Statement::Include(in_path) => {
-                    let id = self.evaluate_path(in_path, &[&parser.vars]);
+                    let id = self.evaluate_path(in_path, &[&parser.vars])?;
                     let (path, bytes) = self.read_file_by_id(id)?;
                     // An included file shares the scope of the file including it, so
                     // the bindings it makes refer to its text for as long as the
@@ -215,7 +222,7 @@ impl Loader {
                 }
 
                 Statement::Subninja(in_path) => {
-                    let id = self.evaluate_path(in_path, &[&parser.vars]);
+                    let id = self.evaluate_path(in_path, &[&parser.vars])?;
                     let (path, bytes) = self.read_file_by_id(id)?;
                     let bytes = std::rc::Rc::new(bytes);
                     let mut sub_parser = parse::Parser::new(&bytes);
@@ -225,7 +232,7 @@ impl Loader {
                 }
 
                 Statement::Default(defaults) => {
-                    let evaluated = self.evaluate_paths(defaults, &[&parser.vars]);
+                    let evaluated = self.evaluate_paths(defaults, &[&parser.vars])?;
                     self.default.extend(evaluated);
                 }
 
